@@ -412,11 +412,24 @@ def arm_regions(body, sw_bb, targets):
     passing the switch again) and from no other arm's target. `targets`: {name: bb}"""
     c = cfg_of(body)
     reach = {n: c.reachable_from(t, avoid=[sw_bb]) for n, t in targets.items()}
+
+    def chain(t):
+        """the straight-line prologue of an arm (or-patterns bind their fields in separate blocks, then join)"""
+        seen = [t]
+        x = t
+        for _ in range(6):
+            tt = body.blocks[x].term
+            if tt.kind != "goto":
+                break
+            x = tt.target
+            seen.append(x)
+        return set(seen)
+    chains = {n: chain(t) for n, t in targets.items()}
     out = {}
     for n in targets:
         others = set()
         for m, r in reach.items():
-            if targets[m] != targets[n]:
+            if targets[m] != targets[n] and not (chains[m] & chains[n]):
                 others |= r
         out[n] = reach[n] - others
     return out
